@@ -167,6 +167,28 @@ pub fn roundtrip_body(mkind: u8, a: usize, b: usize) {
     std::mem::forget(game);
 }
 
+/// Performance stub for `String::push` (the real one branches four ways on the UTF-8 width of
+/// a symbolic char, which makes the solver's memory explode): every character of a move text
+/// must be ASCII, which is ASSERTED here, and an ASCII char is pushed as its single byte --
+/// exactly what the real function does for it.  Native replays use the real `String::push`.
+pub fn stub_string_push(s: &mut String, c: char) {
+    assert!((c as u32) < 128, "[C12] a move text contains a non-ASCII character");
+    unsafe {
+        s.as_mut_vec().push(c as u8);
+    }
+}
+
+macro_rules! tx_instance {
+    ($name:ident, $body:ident, $($arg:expr),*) => {
+        #[cfg_attr(kani, kani::proof)]
+        #[cfg_attr(kani, kani::unwind(9))]
+        #[cfg_attr(kani, kani::stub(std::string::String::push, stub_string_push))]
+        pub fn $name() {
+            $body($($arg),*)
+        }
+    };
+}
+
 macro_rules! t_instance {
     ($name:ident, $body:ident, $($arg:expr),*) => {
         #[cfg_attr(kani, kani::proof)]
@@ -177,15 +199,15 @@ macro_rules! t_instance {
     };
 }
 
-t_instance!(c12_uci_text_normal, uci_text_body, T_NORMAL);
-t_instance!(c12_uci_text_promo, uci_text_body, T_PROMO);
-t_instance!(c12_uci_text_ep, uci_text_body, T_EP);
-t_instance!(c12_uci_text_castle, uci_text_body, T_CASTLE);
+tx_instance!(c12_uci_text_normal, uci_text_body, T_NORMAL);
+tx_instance!(c12_uci_text_promo, uci_text_body, T_PROMO);
+tx_instance!(c12_uci_text_ep, uci_text_body, T_EP);
+tx_instance!(c12_uci_text_castle, uci_text_body, T_CASTLE);
 
-t_instance!(c20_pgn_text_normal, pgn_text_body, T_NORMAL);
-t_instance!(c20_pgn_text_promo, pgn_text_body, T_PROMO);
-t_instance!(c20_pgn_text_ep, pgn_text_body, T_EP);
-t_instance!(c20_pgn_text_castle, pgn_text_body, T_CASTLE);
+tx_instance!(c20_pgn_text_normal, pgn_text_body, T_NORMAL);
+tx_instance!(c20_pgn_text_promo, pgn_text_body, T_PROMO);
+tx_instance!(c20_pgn_text_ep, pgn_text_body, T_EP);
+tx_instance!(c20_pgn_text_castle, pgn_text_body, T_CASTLE);
 
 t_instance!(c12_parse_no_alias_4, parse_no_alias_body, false);
 t_instance!(c12_parse_no_alias_5, parse_no_alias_body, true);
@@ -210,7 +232,7 @@ fn parse_no_alias_reach() {
     std::mem::forget(game);
 }
 
-t_instance!(c12_witness, witness_body, 0);
-t_instance!(c20_witness, witness_body, 1);
+tx_instance!(c12_witness, witness_body, 0);
+tx_instance!(c20_witness, witness_body, 1);
 
 include!("gen_t.rs");
